@@ -63,6 +63,18 @@ func NewWorld(s *core.Source, alphabet int) *World {
 	for i := 0; i < alphabet; i++ {
 		w.Pool = append(w.Pool, w.drawInside(s))
 	}
+	if w.W == 1 && s.Chance(1, 6, "micro") {
+		// a cluster of points 2^-24 apart: the tree must grow ~24 levels deep to
+		// separate them (offsets stay exact in float64 because the bound is small)
+		base := w.Pool[0]
+		const eps = 1.0 / (1 << 24)
+		for i := 1; i < len(w.Pool); i += 2 {
+			p := orb.Point{base[0] + float64(s.Range(-3, 3, "mx"))*eps, base[1] + float64(s.Range(-3, 3, "my"))*eps}
+			if w.Bound.Contains(p) {
+				w.Pool[i] = p
+			}
+		}
+	}
 	for i := 0; i < 4; i++ {
 		w.Out = append(w.Out, w.drawOutside(s))
 	}
@@ -312,6 +324,9 @@ func (w *World) DrawQuery(s *core.Source, kind int) *Query {
 		q.K = 1 + s.Pick([]int{4, 3, 2, 1, 1, 1, 1, 1, 1}, "k") // 1..9
 		if s.Chance(1, 8, "bigk") {
 			q.K = s.Range(10, 80, "kbig")
+			if s.Chance(1, 4, "hugek") {
+				q.K = []int{127, 128, 129, 255, 256, 257, 300, 1000}[s.Intn(8, "khuge")]
+			}
 		}
 		if s.Chance(1, 2, "maxdist") {
 			// dyadic, so maxDist^2 is exact
